@@ -184,6 +184,8 @@ def gen_pubdead(rng, tier, n):
             x = rng.random()
             if x < 0.2:
                 lines.append("pubdead %d" % prec); prec += 1
+            elif x < 0.35:
+                lines.append("pubdeadnotify %d" % prec); prec += 2      # the error handler publishes the next record
             elif x < 0.8:
                 lines.append("pub %d" % prec); prec += 1
             else:
@@ -272,7 +274,7 @@ def property_fails(prop, lines, impl, model):
     keep = {"C10": ("append", "read", "save", "load", "use", "replay", "drop", "raceappend", "streamtwice", "appendnil", "appenddead"),
             "C11": ("replay", "busreplay", "nestedreplay"),
             "C09": ("pub", "replaypub", "read", "pubhookpanic"), "C03": ("pub", "replaypub", "read", "pubhookpanic"),
-            "C13": ("pub", "pubflaky", "pubdead", "read")}.get(prop, ("replay",))
+            "C13": ("pub", "pubflaky", "pubdead", "pubdeadnotify", "read")}.get(prop, ("replay",))
     a = [l for l in (impl or ["<none>"]) if l.startswith("!") or l.split(" ", 1)[0] in keep]
     b = [l for l in (model or ["<none>"]) if l.startswith("!") or l.split(" ", 1)[0] in keep]
     if a == b:
